@@ -792,7 +792,22 @@ def _prop_key(ctx, t):
         if h[1] == "le":
             return ("cmp", "lt", (a[1].key(), a[0].key())), True
         return ("cmp", h[1], tuple(x.key() for x in a)), False
+    if h and h[0] == "call" and h[1] == "all":
+        # all(P(x) ...) is the complement of any(not P(x) ...): one propositional variable for both
+        dual = _Neg(ctx)._not(t)
+        hd = ctx.head_of(dual)
+        if hd and hd[0] == "call" and hd[1] == "any":
+            return ("term", dual.key()), True
     return ("term", t.key()), False
+
+
+class _Neg:
+    """negation / connective builders of the evaluator, usable with a bare term context"""
+    _not = Evaluator._not
+    _bool = Evaluator._bool
+
+    def __init__(self, ctx):
+        self.ctx = ctx
 
 
 def _eval_bool(ctx, t, env, props=None):
@@ -1155,3 +1170,96 @@ def values_reaching(v, st, subject, among=None):
 def full_term(v, st):
     """enclosing branch conditions and survived guards of st together (invariant under nesting / un-nesting)"""
     return v.ev._bool("and", [path_term(v, st)] + context_literals(v, st))
+
+
+# ============================================================================ gated reaching definitions
+def gated_values(v, name, at, via=None):
+    """[(condition term, value term, defining statement)] for the definitions of local `name` that may arrive at statement
+    `at`: definition d arrives iff it was executed (its enclosing branches and survived guards) and no later definition lying
+    between d and `at` was.  Independent of whether the code says `x = a; if c: x = b` or `if c: x = b else: x = a`.
+    None when a definition sits in a loop that does not contain `at` (then "later" is not a static notion)."""
+    cfg = v.cfg
+    atn = cfg.node(at) if isinstance(at, ast.AST) else at
+    restrict = None
+    if via:
+        restrict = frozenset(cfg.via_restriction([cfg.node(x) if isinstance(x, ast.AST) else x for x in via]))
+    IN, _ = cfg.reaching(restrict)
+    ds = sorted(IN.get(atn.id, {}).get(name) or ())
+    if not ds:
+        return []
+    nodes = [cfg.nodes[d] for d in ds]
+    at_loops = {id(p) for p, f in cfg.enclosing(at) if isinstance(p, (ast.For, ast.While))} if isinstance(at, ast.AST) else set()
+    for n in nodes:
+        if n.stmt is None:
+            return None
+        for p, f in cfg.enclosing(n.stmt):
+            if isinstance(p, (ast.For, ast.While)) and id(p) not in at_loops:
+                return None
+    fwd = {}
+    def reach_fwd(a):
+        if a in fwd:
+            return fwd[a]
+        seen = set()
+        st = [a]
+        while st:
+            x = st.pop()
+            for s in cfg.succ[x]:
+                if (x, s) in cfg.back_edges or s in seen:
+                    continue
+                seen.add(s)
+                st.append(s)
+        fwd[a] = seen
+        return seen
+    out = []
+    param_reaches = name in v.ev._params and v.ev._param_reaches(name, atn, restrict)
+    execs = {n.id: full_term(v, n.stmt) for n in nodes}
+    for n in nodes:
+        killers = [m for m in nodes if m.id != n.id and m.id in reach_fwd(n.id) and (atn.id in reach_fwd(m.id) or m.id == atn.id)]
+        cond = v.ev._bool("and", [execs[n.id]] + [v.ev._not(execs[m.id]) for m in killers])
+        val = v.ev._def_term(name, n, restrict)
+        out.append((cond, val, n.stmt))
+    if param_reaches:
+        cond = v.ev._bool("and", [v.ev._not(execs[m.id]) for m in nodes]) if nodes else _true(v)
+        out.append((cond, v.ev._sym(f"param:{name}", v.ev.param_types.get(name)), None))
+    return out
+
+
+def gated_expr(v, expr, at, via=None):
+    """gated values of an expression: a plain local name -> its gated definitions; a conditional expression -> its two arms
+    under the test and its negation; anything else -> [(True, term)]"""
+    if isinstance(expr, ast.Name) and (expr.id in v.ev._local_names) :
+        g = gated_values(v, expr.id, at, via=via)
+        if g is None:
+            return None
+        out = []
+        for cond, val, st in g:
+            # a definition whose right-hand side is itself a conditional expression or a name is expanded one more level
+            rhs = st.value if isinstance(st, ast.Assign) and len(st.targets) == 1 and isinstance(st.targets[0], ast.Name) else None
+            if isinstance(rhs, (ast.IfExp, ast.Name)) and not (isinstance(rhs, ast.Name) and rhs.id == expr.id):
+                sub = gated_expr(v, rhs, st)
+                if sub is None:
+                    return None
+                out += [(v.ev._bool("and", [cond, c2]), v2, s2 or st) for c2, v2, s2 in sub]
+            else:
+                out.append((cond, val, st))
+        return out
+    if isinstance(expr, ast.IfExp):
+        t = v.term(expr.test, at=at, via=via)
+        a = gated_expr(v, expr.body, at, via)
+        b = gated_expr(v, expr.orelse, at, via)
+        if a is None or b is None:
+            return None
+        return [(v.ev._bool("and", [t, c]), x, s) for c, x, s in a] + [(v.ev._bool("and", [v.ev._not(t), c]), x, s) for c, x, s in b]
+    return [(_true(v), v.term(expr, at=at, via=via), None)]
+
+
+def value_iff(v, gated, is_value, want, assume=None, variables=(), pre=None, lo=0):
+    """the gated alternatives whose value satisfies is_value(term) arrive exactly under `want` (given `assume`)"""
+    conds = [c for c, val, st in gated if is_value(val)]
+    if not conds:
+        return False
+    got = v.ev._bool("or", conds) if len(conds) > 1 else conds[0]
+    if assume is not None:
+        return cond_implies(v, v.ev._bool("and", [assume, got]), want, variables, pre=pre, lo=lo) and \
+            cond_implies(v, v.ev._bool("and", [assume, want]), got, variables, pre=pre, lo=lo)
+    return cond_equiv(v, got, want, variables, pre=pre, lo=lo)
